@@ -77,6 +77,7 @@ func (idx *BigIndexWriter) AddRow(values map[string]string) (uint32, error) {
 		if err != nil {
 			return 0, fmt.Errorf("failed to commit: %w", err)
 		}
+		verifPoint("bigwriter.temp-batch-commit")
 
 		idx.tempTx, err = idx.tempDB.Begin(true)
 		if err != nil {
@@ -91,6 +92,7 @@ func (idx *BigIndexWriter) Flush() error {
 	if err := idx.tempTx.Commit(); err != nil {
 		return fmt.Errorf("failed to commit: %w", err)
 	}
+	verifPoint("bigwriter.temp-final-commit")
 
 	tempTx, err := idx.tempDB.Begin(false)
 	if err != nil {
@@ -198,6 +200,7 @@ func (idx *BigIndexWriter) Flush() error {
 	if err := tx.Commit(); err != nil {
 		return fmt.Errorf("failed to commit changes: %w", err)
 	}
+	verifPoint("bigwriter.output-commit")
 
 	return nil
 }
